@@ -110,8 +110,11 @@ def check_batch(run, b, nrand):
         if s_ok:
             sb, db = bytes.fromhex(se[3:]), bytes.fromhex(de[3:])
             run.count("encodes_compared")
+            narrow = PP.narrow_id_schema(sch, name)
             if sb != db:
-                if not clean and db == ref.encode_leaf_aligned(sch, name, v):
+                if narrow is not None and clean and db == ref.encode(narrow, name, v):
+                    run.known_finding(PP.K_NARROW, "a field id outside 0..2^32-1 is loaded mod 2^32: dynamic encoder emits %s, static %s" % (db.hex()[:40], sb.hex()[:40]), {"struct": name, "fields": [(f["name"], f["id"]) for f in sch.structs[name]], "value": v})
+                elif not clean and db == ref.encode_leaf_aligned(sch, name, v):
                     run.known_finding(K1, "dynamic encoder emits %s, static %s" % (db.hex()[:60], sb.hex()[:60]), {"struct": name, "fields": [(f["name"], S.ptype(f["type"])) for f in sch.structs[name]], "value": v})
                 else:
                     run.violation("reflection-loaded codec encodes %s to %s, the static codec to %s" % (name, db.hex()[:80], sb.hex()[:80]), case)
@@ -149,6 +152,14 @@ def check_batch(run, b, nrand):
             run.count("both_codecs_differ_from_the_reference_alike")
             continue
         if not ref.same(sv, dv):
+            narrow = PP.narrow_id_schema(sch, name)
+            try:
+                modelled = narrow is not None and ref.same(dv, ref.decode(narrow, name, canon))
+            except Exception:
+                modelled = False
+            if modelled:
+                run.known_finding(PP.K_NARROW, "a field id outside 0..2^32-1 is loaded mod 2^32: dynamic decoder reads the fields in that order", {"struct": name, "value": v, "decoded": dv})
+                continue
             run.violation("reflection-loaded codec decodes the canonical bytes of %s to a different value than the static codec" % name, case)
             return
         if not ref.same(sv, v):
